@@ -363,6 +363,19 @@ def _(eng, ci, a):
     return Ref([_language_en(eng)], 0)
 
 
+def _real_parser(eng, g, locale_ref, language_ref):
+    """the model's formula parser: `Parser::new(worksheet names, no defined names, no tables, locale, language)` run from
+    its MIR (function-name lookups hit the opaque function table and are unsupported; references, operators,
+    numbers, strings, booleans and errors parse)"""
+    sdef = eng.td.lookup('types::Worksheet')
+    names = VecV([copy_value(ws.f[sdef.index['name']]) for ws in g('worksheets').f])
+    for mf in eng.mfs:
+        for fn in mf.by_last.get('new', ()):
+            if fn.kind == 'fn' and len(fn.params) == 5 and 'parser' in fn.name and 'Parser' in fn.ret:
+                return eng.run_fn(fn, [names, VecV([]), MapV(), locale_ref, language_ref])
+    return Opaque('parser')
+
+
 def _shared_string_index(eng, strings):
     """Model::shared_strings: text -> index into workbook.shared_strings (as from_workbook builds it)"""
     from .mmap import map_insert
@@ -424,7 +437,7 @@ def _(eng, ci, a):
         'parsed_formulas': VecV([VecV([]) for _ in g('worksheets').f]),
         'parsed_defined_names': MapV(),
         'shared_strings': _shared_string_index(eng, g('shared_strings')),
-        'parser': Opaque('parser'),
+        'parser': None,
         'cells': MapV(),
         'locale': Ref([_locale_for(eng, wb, wdef)], 0),
         'language': Ref([_language_en(eng)], 0),
@@ -439,6 +452,7 @@ def _(eng, ci, a):
         'cf_cache': MapV(),
         'links': MapV(),
     }
+    vals['parser'] = _real_parser(eng, g, vals['locale'], vals['language'])
     missing = [f for f in md.fields if f not in vals]
     if missing or len(md.fields) != len(vals):
         raise Unsupported('model::Model has fields this intercept does not know: %s' % (missing or sorted(set(vals) - set(md.fields))))
